@@ -42,12 +42,21 @@ type N struct {
 	SetR  bool            `json:"setr"`
 	Kind  string          `json:"kind"`
 	ID    int             `json:"id"`
+	P     string          `json:"p"`
 }
 
 type Case struct {
-	V    int  `json:"v"`
-	Body []*N `json:"body"`
-	Fall bool `json:"fall"`
+	C    json.RawMessage `json:"c"` // condition of a tagless switch case
+	V    int             `json:"v"`
+	Body []*N            `json:"body"`
+	Fall bool            `json:"fall"`
+}
+
+// Cond is the condition of a tagless-switch case.
+func (c Case) Cond() *N {
+	var n N
+	json.Unmarshal(c.C, &n)
+	return &n
 }
 
 type Func struct {
@@ -164,6 +173,28 @@ type rend struct {
 	labs map[string]string // abstract label of an enclosing loop -> rendered label
 }
 
+// pushLabel emits the label of a loop when its body refers to it and returns the undo.
+func (r *rend) pushLabel(s *N) (string, func()) {
+	if s.Lab == "" || !usesLabel(s.Body, s.Lab) {
+		return "", func() {}
+	}
+	r.nlab++
+	if r.labs == nil {
+		r.labs = map[string]string{}
+	}
+	old, had := r.labs[s.Lab]
+	name := fmt.Sprintf("%s_%d", s.Lab, r.nlab)
+	r.labs[s.Lab] = name
+	r.sb.WriteString(name + ":\n")
+	return name, func() {
+		if had {
+			r.labs[s.Lab] = old
+		} else {
+			delete(r.labs, s.Lab)
+		}
+	}
+}
+
 func (r *rend) lab(l string) string {
 	if n, ok := r.labs[l]; ok {
 		return n
@@ -199,6 +230,8 @@ func Expr(e *N) string {
 		}
 	case "div":
 		return "(" + Expr(e.L) + " / " + Expr(e.R) + ")"
+	case "deref":
+		return "*" + e.P
 	case "call":
 		var as []string
 		for _, a := range e.Args {
@@ -231,6 +264,9 @@ func usesLabel(b []*N, lab string) bool {
 	for _, s := range b {
 		if (s.K == "brk" || s.K == "cont") && s.Lab == lab {
 			return true
+		}
+		if s.K == "mkclo" || s.K == "appclo" || s.K == "defer" {
+			continue // labels do not cross function literals
 		}
 		for _, sub := range [][]*N{s.Th, s.El, s.Body, s.Dflt} {
 			if usesLabel(sub, lab) {
@@ -340,6 +376,50 @@ func (r *rend) stmt(s *N) {
 				delete(r.labs, s.Lab)
 			}
 		}
+	case "rng":
+		lab, restore := r.pushLabel(s)
+		_ = lab
+		r.line("for %s := range %d {", s.V_(), s.N_)
+		r.ind++
+		r.line("_ = %s", s.V_())
+		r.block(s.Body)
+		r.ind--
+		r.line("}")
+		restore()
+	case "tswitch":
+		r.line("switch {")
+		for _, c := range s.Cases {
+			r.line("case %s:", Expr(c.Cond()))
+			r.ind++
+			r.block(c.Body)
+			r.ind--
+		}
+		r.line("default:")
+		r.ind++
+		r.block(s.Dflt)
+		r.ind--
+		r.line("}")
+	case "ifinit":
+		r.line("if %s := %s; %s {", s.X(), Expr(s.E), Expr(s.cond()))
+		r.ind++
+		r.block(s.Th)
+		r.ind--
+		if len(s.El) > 0 {
+			r.line("} else {")
+			r.ind++
+			r.block(s.El)
+			r.ind--
+		}
+		r.line("}")
+	case "iswap":
+		r.line("arr[0], arr[1] = arr[1], arr[0]")
+	case "mkptr":
+		r.line("%s := &%s", s.P, s.X())
+		r.line("_ = %s", s.P)
+	case "pset":
+		r.line("*%s = %s", s.P, Expr(s.E))
+	case "pop":
+		r.line("*%s %s= %s", s.P, map[string]string{"add": "+", "sub": "-"}[s.Op], Expr(s.E))
 	case "switch":
 		r.line("switch %s {", Expr(s.Tag))
 		for _, c := range s.Cases {
